@@ -193,7 +193,7 @@ func (e *Engine) verifyFunc(pkgPath, key string) (fx *FuncCtx, err error) {
 	if fc == nil {
 		return nil, fmt.Errorf("no contract for %s:%s", pkgPath, key)
 	}
-	fx = &FuncCtx{eng: e, fn: fn, fc: fc, pc: pc, key: key, mode: fc.Mode, keySorts: map[string]string{}, refKeys: map[string]int{}, intElemKeys: map[string]types.Type{}, opaques: map[string]*opaqueInfo{}, opaqueUsed: map[string]bool{},
+	fx = &FuncCtx{eng: e, fn: fn, fc: fc, pc: pc, key: key + e.tagSuffix, mode: fc.Mode, keySorts: map[string]string{}, refKeys: map[string]int{}, intElemKeys: map[string]types.Type{}, opaques: map[string]*opaqueInfo{}, opaqueUsed: map[string]bool{},
 		trusted: map[string]bool{}, reveal: map[string]bool{}, pkg: fn.Pkg.Pkg, paramVals: map[string]Val{}}
 	fx.decls = newDecls()
 	fx.ar = newArith(fx.mode, fx.decls)
